@@ -237,6 +237,8 @@ type Options struct {
 	Services           bool // *Service classes with long parameter lists sharing parameter names
 	Nested             bool // nested interface / static class members (beyond the conventional subset)
 	Enums              bool // an enum file with field, constructor and method (beyond the conventional subset)
+	PackageInfo        bool // a package-info.java (no type at all) in one package
+	HalfWritten        bool // a source that stops inside its class header (an interrupted save)
 	WideLine           bool // a one-line class wider than 64 Ki columns (differential checks only)
 	Legacy             bool // one class has a method with hundreds of local variables (generated / legacy code)
 	ServiceMethod      bool // @ServiceMethod on interface methods (coca reports their implementations as APIs); differential checks only
@@ -434,6 +436,21 @@ func GenProject(t *tape.Tape, o Options) *Project {
 			u.Path = strings.ReplaceAll(pkg, ".", "/") + "/" + un + ".java"
 			p.Files = append(p.Files, u)
 		}
+	}
+	if o.PackageInfo {
+		pkg := g.classes[t.Pick(len(g.classes))].pkg
+		f := &JFile{ID: fmt.Sprintf("f%d", len(p.Files)), Pkg: pkg, Name: "package-info", Kind: "package-info"}
+		f.Path = strings.ReplaceAll(pkg, ".", "/") + "/package-info.java"
+		f.Text = "/**\n * Domain types of " + pkg + ".\n */\n@Deprecated\npackage " + pkg + ";\n"
+		p.Files = append(p.Files, f)
+	}
+	if o.HalfWritten {
+		// the file ends in the middle of the class header: the parser reports the error and goes on
+		pkg := g.classes[t.Pick(len(g.classes))].pkg
+		f := &JFile{ID: fmt.Sprintf("f%d", len(p.Files)), Pkg: pkg, Name: "OrderSeed", Kind: "class"}
+		f.Path = strings.ReplaceAll(pkg, ".", "/") + "/OrderSeed.java"
+		f.Text = "package " + pkg + ";\n\n@Service\npublic class OrderSeed"
+		p.Files = append(p.Files, f)
 	}
 	if o.WideLine && t.Bool(1, 2) {
 		// a machine-written class on ONE line, wider than 64 Ki columns: the methods b<i> start exactly
